@@ -1,7 +1,11 @@
 #!/usr/bin/env python3
 """copy confirmed sub-agent mutants from /tmp/seed/<P>/_out/<k> into /verif/seeded/<P>-<k>/ (patch.diff, demo/, README.md, meta.json)"""
 import sys, os, shutil, json, re, subprocess
-for P in sys.argv[1:]:
+TAG = ""
+args = sys.argv[1:]
+if args and args[0] == "--tag":
+    TAG = args[1] + "-"; args = args[2:]
+for P in args:
     base = "/tmp/seed/%s/_out" % P
     for k in sorted(os.listdir(base)):
         d = os.path.join(base, k)
@@ -12,7 +16,7 @@ for P in sys.argv[1:]:
         if "RESULT confirmed" not in v and not forced:
             print("skip", P, k, "(not confirmed)")
             continue
-        out = "/verif/seeded/%s-%s" % (P, k)
+        out = "/verif/seeded/%s-%s%s" % (P, TAG, k)
         shutil.rmtree(out, ignore_errors=True)
         os.makedirs(out)
         shutil.copy(os.path.join(d, "patch.diff"), out)
